@@ -219,7 +219,7 @@ def _random_members(seed, n):
 def cases(tier, seed):
     allc = _all(tier)
     if tier != "quick":
-        allc = allc + _random_members(seed, 400)
+        allc = allc + _random_members(1, 400)
     out = []
     flags = [(False, False), (True, False), (False, True), (True, True)]
     for i, c in enumerate(allc):
